@@ -60,7 +60,7 @@ impl HCase {
         serde_json::json!({
             "format": self.fmt.name(),
             "input": show(&self.input),
-            "input_hex": crate::gen::hex(&self.input),
+            "input_hex": crate::gen::hex_limited(&self.input),
             "config": self.cfg.describe(),
             "faults": self.faults.iter().map(|f| format!("{:?}", f)).collect::<Vec<_>>(),
             "ops": self.ops.iter().map(|o| format!("{:?}", o)).collect::<Vec<_>>(),
@@ -117,6 +117,10 @@ pub struct HStats {
     pub slots_reverified: usize,
     /// index of the first operation during which the source raised an injected error
     pub first_injected_op: Option<usize>,
+    /// BufferLimit answers after which the model stayed strict
+    pub limits_kept_strict: usize,
+    /// records delivered correctly right after such a BufferLimit (policy switched or stopped refusing)
+    pub resumed_after_limit: usize,
 }
 
 pub struct HOutcome {
@@ -169,10 +173,18 @@ struct Runner<'a> {
     has_exact: bool,
     opts: RunOpts<'a>,
     fatal: bool,
+    /// the current operation leaves the model strict if it answers BufferLimit (single-record
+    /// reads and plain set reads ask the policy for their first record only: nothing was consumed)
+    limit_keeps_strict: bool,
+    /// a BufferLimit was returned and no record has been delivered since: deviations now
+    /// belong to the policy property ("a policy installed in mid-stream takes over without
+    /// disturbing the stream", "records that fit within the permitted sizes are parsed normally")
+    after_limit: bool,
 }
 
 impl<'a> Runner<'a> {
     fn dev(&mut self, tag: &'static str, sig: &str, what: String) {
+        let tag = if self.after_limit && tag == "order" { "policy" } else { tag };
         if self.devs.len() < 20 {
             self.devs.push(Deviation {
                 tag,
@@ -217,9 +229,14 @@ impl<'a> Runner<'a> {
     /// handles an error answer of a reading operation. Returns true if the
     /// error is accounted for (and the model state was updated).
     fn on_error(&mut self, e: &crate::api::ErrFull, injected: usize, refused: usize) {
+        self.on_error_nth(e, injected, refused, 0)
+    }
+
+    /// `nth`: how many I/O errors the current (multi-call) operation has already returned
+    fn on_error_nth(&mut self, e: &crate::api::ErrFull, injected: usize, refused: usize, nth: usize) {
         match &e.obs {
             ErrObs::Io { kind, msg } => {
-                if injected == 0 {
+                if injected <= nth {
                     self.dev(
                         "io",
                         "io-error-without-source-error",
@@ -229,7 +246,7 @@ impl<'a> Runner<'a> {
                     let log = self.rig.src.borrow();
                     let last = &log.injected[log.injected.len() - injected..];
                     // the first error raised during this call must be the one returned
-                    let (_, _, k0, m0) = &last[0];
+                    let (_, _, k0, m0) = &last[nth];
                     if k0 != kind || m0 != msg {
                         let (k0, m0) = (*k0, m0.clone());
                         drop(log);
@@ -250,7 +267,16 @@ impl<'a> Runner<'a> {
                         "BufferLimit returned although the policy did not refuse".into(),
                     );
                 }
-                self.enter_degraded();
+                if self.limit_keeps_strict && !self.degraded && matches!(self.cursor, Cursor::At(_)) {
+                    // the record is still pending: with a policy that permits the size the
+                    // stream must continue exactly here
+                    self.after_limit = true;
+                    self.stats.limits_kept_strict += 1;
+                    self.expect_pos = None;
+                    self.pos_required = false;
+                } else {
+                    self.enter_degraded();
+                }
             }
             _ => {
                 // a parse error
@@ -276,6 +302,7 @@ impl<'a> Runner<'a> {
     }
 
     fn enter_degraded(&mut self) {
+        self.after_limit = false;
         if !self.degraded {
             self.degraded = true;
             self.stats.degraded = true;
@@ -385,7 +412,9 @@ impl<'a> Runner<'a> {
                     format!("growth request went to policy generation {} but {} is installed", gen, self.rig.policy_generation),
                 );
             }
-            if *arg != cap {
+            // after an injected source error the buffer may be partly filled and a growth
+            // request may legitimately leave the capacity unchanged: the chain is judged fault-free only
+            if *arg != cap && self.rig.src.borrow().injected.is_empty() {
                 self.dev(
                     "policy",
                     "policy-argument",
@@ -473,6 +502,7 @@ impl<'a> Runner<'a> {
     }
 
     fn do_read_one(&mut self, owned: bool) {
+        self.limit_keeps_strict = true;
         let inj0 = self.rig.src.borrow().injected.len();
         let pol0 = self.rig.pol.borrow().calls.len();
         self.rig.begin_op();
@@ -544,7 +574,11 @@ impl<'a> Runner<'a> {
                             } else {
                                 self.cursor = Cursor::At(i + 1);
                                 self.expect_pos = self.coords(i);
+                                if self.after_limit {
+                                    self.stats.resumed_after_limit += 1;
+                                }
                             }
+                            self.after_limit = false;
                             self.pos_required = true;
                             self.check_position();
                         }
@@ -604,6 +638,7 @@ impl<'a> Runner<'a> {
     }
 
     fn do_read_set(&mut self, slot: usize, n: Option<usize>) {
+        self.limit_keeps_strict = n.is_none();
         let inj0 = self.rig.src.borrow().injected.len();
         let pol0 = self.rig.pol.borrow().calls.len();
         self.rig.begin_op();
@@ -709,6 +744,10 @@ impl<'a> Runner<'a> {
                                     self.stats.exact_grew_with_batch += 1;
                                 }
                             }
+                            if self.after_limit && bad.is_none() && mm > 0 {
+                                self.stats.resumed_after_limit += 1;
+                            }
+                            self.after_limit = false;
                             self.cursor = Cursor::At(i + mm);
                             self.slots[slot] = Slot::Known((i..i + mm).collect());
                             self.expect_pos = self.coords(i + mm);
@@ -785,6 +824,7 @@ impl<'a> Runner<'a> {
     }
 
     fn do_seek(&mut self, t: usize) {
+        self.limit_keeps_strict = false;
         let (line, byte) = match self.coords(t) {
             Some(c) => c,
             None => {
@@ -882,6 +922,7 @@ impl<'a> Runner<'a> {
     }
 
     fn do_into_records(&mut self) {
+        self.limit_keeps_strict = false;
         let reader = self.rig.reader.take().unwrap();
         let max = self.n() + 6;
         self.rig.begin_op();
@@ -897,6 +938,7 @@ impl<'a> Runner<'a> {
         self.check_policy_calls(pol0, None);
         self.trace.push(format!("into_records -> {} answers", obs.len()));
         let mut saw_io = false;
+        let mut n_io = 0usize;
         for o in obs {
             match o {
                 Obs::Rec(rec) => {
@@ -924,7 +966,8 @@ impl<'a> Runner<'a> {
                     }
                 }
                 Obs::Err(e) => {
-                    if matches!(e.obs, ErrObs::Io { .. }) {
+                    let is_io = matches!(e.obs, ErrObs::Io { .. });
+                    if is_io {
                         saw_io = true;
                     }
                     if !self.degraded && e.obs.is_parse() {
@@ -934,7 +977,10 @@ impl<'a> Runner<'a> {
                             }
                         }
                     }
-                    self.on_error(&e, injected, refused);
+                    self.on_error_nth(&e, injected, refused, n_io);
+                    if is_io {
+                        n_io += 1;
+                    }
                 }
                 Obs::End => {
                     if !self.degraded {
@@ -979,6 +1025,8 @@ pub fn run_history(case: &HCase, opts: RunOpts) -> HOutcome {
         has_exact,
         opts,
         fatal: false,
+        limit_keeps_strict: false,
+        after_limit: false,
     };
     for (k, op) in case.ops.iter().enumerate() {
         if run.fatal {
@@ -1017,7 +1065,9 @@ pub fn run_history(case: &HCase, opts: RunOpts) -> HOutcome {
                 run.check_position();
             }
             Op::SetPolicy(spec) => {
-                run.rig.set_policy(spec);
+                // (constant-step policies make large records quadratic: only doubling ones for large inputs)
+                let spec = crate::gen::tame_policy(spec, case.input.len());
+                run.rig.set_policy(&spec);
                 run.trace.push(format!("set_policy {:?}", spec));
             }
             Op::IterSlot(s) => run.do_iter_slot(*s),
